@@ -346,6 +346,10 @@ def constraint_rules(ctx):
                 ctx.check(any(c in s.call_objs for c in ce), R + '/RemovedConstraint::evaluate/returns-it', 'T-CARRY', b.name, 'returned value is not the evaluated constraint', b.site(e))
 
 
+# the reported objective / constraint values are produced by the evaluation kernels
+RELIES_ON = {'C01': ['C01.lookup', 'C01.fields', 'C01.every-term', 'C01.linear-none', 'C01.oneof']}
+
+
 def check(ctx):
     body = ctx.method('C05.anchor/Instance::evaluate', INST, 'evaluate', trait='Evaluate')
     if body is not None: solution_rules(ctx, body)
